@@ -687,6 +687,19 @@ def scale_families():
         "strings-list-unclosed": lambda n: b'if exists [' + b'"h",' * n,
         "colons": lambda n: b":" * n,
         "quotes": lambda n: b'"' * n,
+        # one long run of blanks / CRs / stars INSIDE a token, text on both sides of it
+        "comment-blank-run": lambda n: b"#a" + b" " * n + b"b\nkeep;",
+        "comment-tab-run": lambda n: b"#a" + b"\t" * n + b"b\r\nkeep;",
+        "comment-cr-run": lambda n: b"#a" + b"\r" * n + b"b\nkeep;",
+        "bracket-comment-blank-run": lambda n: b"/*a" + b" " * n + b"b*/keep;",
+        "bracket-comment-star-run": lambda n: b"/*a" + b"*" * n + b"b*/keep;",
+        "string-blank-run": lambda n: b'redirect "a' + b" " * n + b'b";',
+        "string-newline-run": lambda n: b'redirect "a' + b"\n" * n + b'b";',
+        "text-blank-run": lambda n: b"redirect text:\na" + b" " * n + b"b\n.\n;",
+        "text-dot-blank-lines": lambda n: b"redirect text:\n" + b". \n" * n + b".\n;",
+        "blank-run-between-tokens": lambda n: b"keep" + b" \t" * n + b";# c" + b" " * n + b"\n",
+        "identifier-underscores": lambda n: b"a" + b"_" * n + b"b;",
+        "number-zeros": lambda n: b"if size :over " + b"0" * n + b"1K {}",
     }
     return fam
 
